@@ -25,6 +25,9 @@ def enumerate_specs(tier):
                     masks.append([1 if j == i else 0 for j in range(len(ins))])
             for m in masks:
                 specs.append({"op": name, "args": args, "variant": {"req": m}})
+            ci = len(specs)
+            if ci % 4 == 0 and len(ins[0].shape) >= 2:     # first operand as a non-contiguous view
+                specs.append({"op": name, "args": args, "variant": {"req": full, "layout": "T" if ci % 8 == 0 else "S"}})
     return specs
 
 
